@@ -130,6 +130,11 @@ def step (d : DState) (line : String) : DState × String :=
         let s1 := d0.s.step d0.c noPol (.run .timer)
         ({ d0 with s := s1 }, match s1.live with | some r => sList sTick r.buf | none => "not-live")
     | _ => (d, "bad-op")
+  | ["wake"] =>
+    -- the instant the live control loop sleeps until (`next_wakeup_timeout`, absolute)
+    match d.s.live with
+    | some r => (d, sOptInt r.nextWakeup)
+    | none => (d, "not-live")
   | ["rshow"] => (d, sLive d.c.cfg d.s)
   | ["hstate"] => (d, sH d.s)
   | ["islive"] => (d, sBool d.s.live.isSome)
